@@ -240,7 +240,14 @@ func checkRestricted(c *fw.Ctx) {
 		return `accept:"public"`
 	}
 	compareTable(c, rule, "restricted join authorisation", fn, 1, vars, ip, oracle, func(r fw.Row) string {
-		return r.Outcome + ":" + fw.Sig(r.Ret.Results[0])
+		if r.Outcome == "reject" {
+			return `reject:""` // what accompanies the error is not part of the rule
+		}
+		v := fw.Sig(r.Ret.Results[0])
+		if v != `"invite"` && v != `"public"` {
+			return "unknown:" + v // the effective join rule is encoded in a way the rule does not know
+		}
+		return r.Outcome + ":" + v
 	})
 }
 
